@@ -568,7 +568,9 @@ def names_set(which):
             tri += [list(p) for p in itertools.permutations(c, 3)]
         lists = [l for l in lists if len(l) <= 2] + tri
     elif which == "c16":
-        lists = [["ab", "abc"], ["é", "éa", "aé"]]
+        # round 12: names sharing a prefix with the built-in `help`, and members of visible/hidden groups, so that the
+        # completion enumeration (run under every build that has autocomplete) meets help-off + autocomplete-on
+        lists = [["ab", "abc"], ["abd", "b"], ["é", "éa", "aé"], ["h"], ["hex", "help"], ["hax", "hay"], ["h", "hex", "hello"]]
     if which != "c16":
         # names outside the pool: two `h` commands that agree beyond what they share with the built-in `help`;
         # 3- and 4-byte characters that differ only in their last octet; a name equal to the common prefix last
